@@ -43,10 +43,21 @@ def run(tier):
         states += r.distinct
         transitions += r.generated
         beh = fragcheck.behaviours(r)
+        # transmissions that fail for good (an error that is not retried, injected as EINTR) at attempt 1..3, with the
+        # control buffer (attachments) allocated
+        for k in (1, 2, 3):
+            rk = fragcheck.frag_model(wd, "shapes-hard%d" % k, 4096, arith, cap, lens, [0, 1, cap - 1], 3, liveness=False, hard=k)
+            require_ok(rk, "MCFrag shapes hard")
+            if not rk.violation:
+                states += rk.distinct
+                for b in fragcheck.behaviours(rk):
+                    if len(b["fh"]) >= k:
+                        b["hard"] = k
+                        beh.append(b)
         rnd = random.Random(seed())
         if len(beh) > (1500 if tier == "quick" else 20000):
             beh = rnd.sample(beh, 1500 if tier == "quick" else 20000)
-        cases = [{"id": i + 1, "len": b["len"], "natt": b["natt"], "mix": 2 + (i % 2), "fh": b["fh"],
+        cases = [{"id": i + 1, "len": b["len"], "natt": b["natt"], "mix": 2 + (i % 2), "fh": b["fh"], "hard": b.get("hard", 0),
                   "model": {"sres": b["sres"], "rres": b["rres"]}} for i, b in enumerate(beh)]
         results, raw = fragcheck.replay(wd, "shapes", 4096, cases)
         evaluations += len(results)
@@ -59,6 +70,13 @@ def run(tier):
                 violations.append({"what": "harness died on shape %s" % json.dumps(c)[:200], "key": "died",
                                    "replay": write_replay("C18", "died", {"property": "C18", "case": c})})
                 break
+            if res.get("sres") == "died":
+                violations.append({"what": "the process was killed by signal %s / aborted (memory corruption?) while this message was "
+                                           "being sent or received: len=%d natt=%d fh=%s hard=%s %s" % (
+                                               -res.get("rc", 0), c["len"], c["natt"], c["fh"], c.get("hard"),
+                                               (res.get("stderr") or "").strip()[-160:]), "key": "crash",
+                                   "replay": write_replay("C18", "crash-%d" % c["id"], {"property": "C18", "case": c, "observed": res})})
+                continue
             if res.get("rres") == "ok" and res.get("rlen") != c["len"]:
                 violations.append({"what": "received length %s for a message of %d bytes" % (res.get("rlen"), c["len"]),
                                    "key": "len", "replay": write_replay("C18", "len-%d" % c["id"], {"property": "C18", "case": c, "observed": res})})
